@@ -44,4 +44,20 @@ CLAIMS = {
              "deadlines and recycle windows are not decided.",
         technique="unit (dimension) inference; CFG dominance/guards; feasible-path enumeration; snapshot-iteration rule",
         ref="4/C03"),
+    "C08": dict(
+        text="Static analysis (whole repository) of structural necessary conditions of the coil safety limits: only the "
+             "tabled Driver paths (and the tabled non-coil DigitalOutput / software-EOS re-use of verified settings) "
+             "actuate a platform driver, the hw_driver object does not escape, Driver's private actuation paths are "
+             "used only by Driver; platform rule setters are called only by the verifying controller methods with "
+             "DriverSettings from the verifying helpers; every PulseSettings/HoldSettings field in driver.py and "
+             "platform_controller.py derives (def-use through private-method parameters and delay.add keywords) from "
+             "the getter of the matching kind applied to the caller's value; on every feasible path to a getter's "
+             "return the upper-limit test and the negative-value test were false, exceeding raises DriverLimitsError, "
+             "configured maxima take precedence over fallbacks, no limit guard is unsatisfiable; software-timed pulse "
+             "arms self.disable with ms=pulse_ms on the enabling path; the max_hold_duration watchdog is armed on "
+             "every enabling path, in milliseconds, not restartable, removed by disable; hold power 0 is refused; "
+             "control events map parameters one-to-one onto the verifying API. PSU wait arithmetic and timer "
+             "interleavings are not decided.",
+        technique="who-may-call/escape analysis; def-use provenance across call sites; feasible-path guard analysis; dead-guard interval check; unit inference",
+        ref="4/C08"),
 }
